@@ -80,6 +80,7 @@ Exprs(c) ==
   \cup {Var(x) : x \in Visible \ (IF P.ty = "str" THEN NumOnly ELSE {})}
   \cup {Call(f, CallArgs(f, c)) : f \in VisibleFuns}
   \cup {Bin(op, Var(x), Atom(c)) : op \in P.ops, x \in Assignable}
+  \cup (IF "varvar" \in P.kinds THEN {Bin(op, Var(x), Var(y)) : op \in P.ops, x \in Visible \cap NumOnly, y \in Visible \cap NumOnly} ELSE {})
   \cup (IF P.ty = "str" THEN {Interp(x) : x \in Assignable} ELSE {})
 \* conditions: comparisons of a visible number with a small constant, or a parameter test
 NumVars == IF P.ty = "num" THEN Visible ELSE Visible \cap NumOnly
